@@ -7,7 +7,8 @@ for d in sorted(glob.glob(os.path.join(V, 'refactors', '*'))):
     if not os.path.exists(d + '/refactor.diff'): continue
     note = open(d + '/note.txt').read() if os.path.exists(d + '/note.txt') else ''
     files = sorted(set(re.findall(r'^\+\+\+ b/(\S+)', open(d + '/refactor.diff').read(), re.M)))
-    first = re.sub(r'\s+', ' ', note.strip().split('\n\n')[0] if note.strip() else '').replace('|', '/')[:260]
+    first = re.sub(r'[=\-~]{3,}', ' ', note)
+    first = re.sub(r'\s+', ' ', first.strip()).replace('|', '/')[:300]
     r = json.load(open(d + '/result.json')) if os.path.exists(d + '/result.json') else None
     total += 1
     if r is None: res = 'not run'
